@@ -251,7 +251,9 @@ func TestCfgNew(t *testing.T) {
 		c := GenSrvConf(r)
 		if r.Chance(40) { // spell the keys differently
 			for k := range c.Clients {
-				c.Clients[k].Key = Pick(r, c.Clients[k].MAC.String(), strings.ToUpper(c.Clients[k].MAC.String()), strings.ReplaceAll(c.Clients[k].MAC.String(), ":", "-"))
+				m := c.Clients[k].MAC
+				c.Clients[k].Key = Pick(r, m.String(), strings.ToUpper(m.String()), strings.ReplaceAll(m.String(), ":", "-"),
+					fmt.Sprintf("%02x%02x.%02x%02x.%02x%02x", m[0], m[1], m[2], m[3], m[4], m[5]), strings.ToUpper(strings.ReplaceAll(m.String(), ":", "-")))
 			}
 		}
 		if r.Chance(20) { // boundary values that are still valid
